@@ -144,6 +144,21 @@ def tlc(module, cfg, workdir, name, workers=8, env_extra=None, timeout=3600, sim
     return r
 
 
+def ideal_mc(out, tier, name, extra=()):
+    """Model-check L0 (MC_Ideal).  quick: one token, one blob, one draw (0.6M states).  thorough: one token and one blob with two
+    draws and key generation (5.4M states) plus the configurations named in `extra`: "tokens" (two tokens, no blobs, 2.6M states),
+    "blobs" (two blobs, no tokens).  Returns the last result."""
+    cfgs = ["MC_Ideal_%s.cfg" % tier]
+    if tier == "thorough":
+        cfgs += ["MC_Ideal_thorough_%s.cfg" % e for e in extra]
+    r = None
+    for i, cfg in enumerate(cfgs):
+        r = tlc("MC_Ideal", cfg, "mc", "%s-mc%d" % (name, i), workers=12 if tier == "quick" else 14, timeout=7200, heap="16g")
+        tlc_must_pass(r, "MC_Ideal " + cfg)
+        out.add_tlc(r)
+    return r
+
+
 def tlc_must_pass(r, what):
     """A model-checking run over the specification itself must complete without error."""
     if not r.completed or r.viols:
